@@ -570,3 +570,301 @@ Section NoAbort.
     - intros m v _ _ _. apply model_filter_never_crashes.
   Qed.
 End NoAbort.
+
+(* ======================= deepening: partition, week keys, tag membership ======================= *)
+
+(* ---- by(): the groups PARTITION the payments, no group is empty ------------------------------- *)
+Section Partition.
+  Context {A : Type}.
+  Variable key : payment -> Z.
+  Variable val : payment -> A.
+
+  Lemma g_add_perm k (a : A) g : Permutation (flat_map snd (g_add k a g)) (flat_map snd g ++ [a]).
+  Proof.
+    induction g as [|[k0 l] r IH]; simpl; [reflexivity|].
+    destruct (k =? k0)%Z; simpl.
+    - rewrite <- !app_assoc. apply Permutation_app_head. apply Permutation_app_comm.
+    - rewrite IH, app_assoc. reflexivity.
+  Qed.
+
+  Lemma g_add_nonempty k (a : A) g : Forall (fun e => snd e <> []) g -> Forall (fun e => snd e <> []) (g_add k a g).
+  Proof.
+    induction g as [|[k0 l] r IH]; simpl; intros H.
+    - constructor; [discriminate|constructor].
+    - inversion H as [|x xs Hx Hr]; subst. destruct (k =? k0)%Z.
+      + constructor; [simpl; destruct l; discriminate|exact Hr].
+      + constructor; [exact Hx|now apply IH].
+  Qed.
+
+  Lemma gfold_perm txns : forall g,
+    Permutation (flat_map snd (gfold key val txns g)) (flat_map snd g ++ map val txns).
+  Proof.
+    induction txns as [|p txns IH]; intros g; simpl; [now rewrite app_nil_r|].
+    unfold gfold in *. simpl. rewrite IH, g_add_perm, <- app_assoc. reflexivity.
+  Qed.
+
+  Lemma gfold_nonempty txns : forall g,
+    Forall (fun e => snd e <> []) g -> Forall (fun e => snd e <> []) (gfold key val txns g).
+  Proof.
+    induction txns as [|p txns IH]; intros g H; simpl; [exact H|].
+    unfold gfold in *. simpl. apply IH. now apply g_add_nonempty.
+  Qed.
+
+  Lemma group_by_partition txns :
+    Permutation (flat_map snd (group_by key val txns)) (map val txns) /\
+    Forall (fun e => snd e <> []) (group_by key val txns).
+  Proof.
+    change (group_by key val txns) with (gfold key val txns []). split.
+    - apply (gfold_perm txns []).
+    - apply gfold_nonempty. constructor.
+  Qed.
+End Partition.
+
+Lemma flat_map_perm {A B} (f : A -> list B) l l' : Permutation l l' -> Permutation (flat_map f l) (flat_map f l').
+Proof.
+  induction 1; simpl.
+  - reflexivity.
+  - now apply Permutation_app_head.
+  - rewrite !app_assoc. apply Permutation_app_tail. apply Permutation_app_comm.
+  - etransitivity; eassumption.
+Qed.
+
+(* every payment is in exactly one by()-group (as a multiset), and no group is empty *)
+Theorem by_partition (c : ctx) (f : field) :
+  exists groups : list (list value),
+    get_by c f = VList (map VList groups) /\
+    Permutation (concat groups) (map pay_val (c_txns c)) /\
+    Forall (fun g => g <> []) groups.
+Proof.
+  set (G := group_by (key_of f) pay_val (c_txns c)).
+  exists (map snd (sort_keys G)). split; [|split].
+  - unfold get_by. fold G. now rewrite map_map.
+  - rewrite <- flat_map_concat_map. etransitivity; [apply flat_map_perm, sort_keys_perm|].
+    apply (group_by_partition (key_of f) pay_val (c_txns c)).
+  - apply Forall_forall. intros g Hg. apply in_map_iff in Hg. destruct Hg as [e [Ee He]]. subst g.
+    destruct (group_by_partition (key_of f) pay_val (c_txns c)) as [_ NE]. fold G in NE.
+    rewrite Forall_forall in NE. apply NE. eapply Permutation_in; [apply sort_keys_perm|exact He].
+Qed.
+
+(* ---- by("week"): two dates of one calendar year share a group iff they share their Monday -------- *)
+Definition monday_of (o : Z) : Z := (o - (o + 6) mod 7)%Z.       (* ordinal of the Monday on or before o *)
+
+Lemma week_same_monday (j o1 o2 : Z) :
+  ((o1 - j + 7 - (o1 + 6) mod 7) / 7 = (o2 - j + 7 - (o2 + 6) mod 7) / 7 <-> monday_of o1 = monday_of o2)%Z.
+Proof.
+  unfold monday_of.
+  assert (H1 := Z.mod_pos_bound (o1 + 6) 7 ltac:(lia)).
+  assert (H2 := Z.mod_pos_bound (o2 + 6) 7 ltac:(lia)).
+  assert (D1 := Z.div_mod (o1 + 6) 7 ltac:(lia)).
+  assert (D2 := Z.div_mod (o2 + 6) 7 ltac:(lia)).
+  set (r1 := ((o1 + 6) mod 7)%Z) in *. set (r2 := ((o2 + 6) mod 7)%Z) in *.
+  set (q1 := ((o1 + 6) / 7)%Z) in *. set (q2 := ((o2 + 6) / 7)%Z) in *.
+  (* o - r = 7 q - 6, so both numerators are 7 q - 6 - j + 7 *)
+  replace (o1 - j + 7 - r1)%Z with (q1 * 7 + (1 - j))%Z by lia.
+  replace (o2 - j + 7 - r2)%Z with (q2 * 7 + (1 - j))%Z by lia.
+  replace (o1 - r1)%Z with (7 * q1 - 6)%Z by lia. replace (o2 - r2)%Z with (7 * q2 - 6)%Z by lia.
+  rewrite !Z.div_add_l by lia. lia.
+Qed.
+
+Definition valid_md (m d : Z) : Prop := (1 <= m <= 12 /\ 1 <= d <= 31)%Z.
+
+Lemma dbm_jan y : days_before_month y 1 = 0%Z.
+Proof. reflexivity. Qed.
+
+Lemma dbm_bound y m : (1 <= m <= 12 -> 0 <= days_before_month y m <= 335)%Z.
+Proof.
+  intros Hm. unfold days_before_month.
+  assert (C : (m = 1 \/ m = 2 \/ m = 3 \/ m = 4 \/ m = 5 \/ m = 6 \/ m = 7 \/ m = 8 \/ m = 9 \/ m = 10 \/ m = 11 \/ m = 12)%Z) by lia.
+  repeat (destruct C as [C|C]; [subst m|]); try subst m;
+    (match goal with |- context [nth ?n ?l ?d] => let v := eval vm_compute in (nth n l d) in change (nth n l d) with v end);
+    (match goal with |- context [(2 <? ?k)%Z] => let v := eval vm_compute in (2 <? k)%Z in change (2 <? k)%Z with v end);
+    cbn [andb]; destruct (is_leap y); lia.
+Qed.
+
+Lemma yday_bound y m d : valid_md m d -> (0 <= ordinal y m d - ordinal y 1 1 <= 366)%Z.
+Proof.
+  intros [Hm Hd]. unfold ordinal. rewrite dbm_jan. pose proof (dbm_bound y m Hm). lia.
+Qed.
+
+Lemma week_W_bound y m d : valid_md m d -> (0 <= week_W y m d < 64)%Z.
+Proof.
+  intros V. pose proof (yday_bound y m d V) as B. unfold week_W, weekday.
+  assert (H := Z.mod_pos_bound (ordinal y m d + 6) 7 ltac:(lia)).
+  split.
+  - apply Z.div_pos; lia.
+  - apply Z.div_lt_upper_bound; lia.
+Qed.
+
+(* the '%Y-W%W' key: equal for two valid dates iff same calendar year and same Monday-based week *)
+Theorem week_key_spec (p1 p2 : payment) :
+  valid_md (p_month p1) (p_day p1) -> valid_md (p_month p2) (p_day p2) ->
+  (key_of FWeek p1 = key_of FWeek p2 <->
+   p_year p1 = p_year p2 /\
+   monday_of (ordinal (p_year p1) (p_month p1) (p_day p1)) = monday_of (ordinal (p_year p2) (p_month p2) (p_day p2))).
+Proof.
+  intros V1 V2. unfold key_of.
+  pose proof (week_W_bound (p_year p1) _ _ V1) as B1. pose proof (week_W_bound (p_year p2) _ _ V2) as B2.
+  split.
+  - intros E. assert (Y : p_year p1 = p_year p2) by lia. split; [exact Y|].
+    assert (W : week_W (p_year p1) (p_month p1) (p_day p1) = week_W (p_year p2) (p_month p2) (p_day p2)) by lia.
+    unfold week_W, weekday in W. rewrite <- Y in W |- *.
+    exact (proj1 (week_same_monday (ordinal (p_year p1) 1 1) _ _) W).
+  - intros [Y M]. rewrite <- Y in M |- *. f_equal. unfold week_W, weekday.
+    exact (proj2 (week_same_monday (ordinal (p_year p1) 1 1) _ _) M).
+Qed.
+
+(* ---- tags: `"x" in tags` is equality of the lower-cased forms; exclusion likewise ------------------- *)
+Lemma mem_dedup x l : mem x (dedup l) = mem x l.
+Proof.
+  induction l as [|y l IH]; simpl; [reflexivity|].
+  destruct (mem y (dedup l)) eqn:E.
+  - rewrite IH. destruct (String.eqb_spec x y) as [->|]; [now rewrite <- IH|reflexivity].
+  - simpl. now rewrite IH.
+Qed.
+
+Theorem tag_membership (c : ctx) (a : string) :
+  c_txns c <> [] ->
+  exists b, py_in (VStr a) (get_tags c) = Val b /\
+            (b = true <-> exists t, In t (c_tags c) /\ lower t = lower a).
+Proof.
+  intros NE. unfold get_tags. destruct (c_txns c) as [|p ps]; [congruence|].
+  simpl. eexists. split; [reflexivity|]. rewrite mem_dedup. apply mem_map_iff.
+Qed.
+
+Theorem excluded_spec (m : merchant) :
+  excluded m = true <->
+  exists t, In t (m_tags m) /\ (lower t = "income" \/ lower t = "transfer" \/ lower t = "investment")%string.
+Proof.
+  unfold excluded, Py.is_excluded_from_spending, Py.get_tags_lower, inter_nonempty. simpl.
+  rewrite existsb_exists. split.
+  - intros [x [Hx Hm]]. apply in_map_iff in Hx. destruct Hx as [t [Et Ht]]. subst x. exists t. split; [exact Ht|].
+    unfold Py.EXCLUDED_FROM_SPENDING, Py.INCOME_TAG, Py.TRANSFER_TAG, Py.INVESTMENT_TAG in Hm. simpl in Hm.
+    destruct (String.eqb_spec (lower t) "income"); [auto|].
+    destruct (String.eqb_spec (lower t) "transfer"); [auto|].
+    destruct (String.eqb_spec (lower t) "investment"); [auto|discriminate].
+  - intros [t [Ht H]]. exists (lower t). split; [now apply in_map|].
+    unfold Py.EXCLUDED_FROM_SPENDING, Py.INCOME_TAG, Py.TRANSFER_TAG, Py.INVESTMENT_TAG. simpl.
+    destruct H as [H|[H|H]]; rewrite H; reflexivity.
+Qed.
+
+(* ---- by_merchant: each transaction lands in exactly one merchant, in order -------------------- *)
+Fixpoint mfind (n : string) (ms : list merchant) : option merchant :=
+  match ms with [] => None | m :: r => if String.eqb n (m_name m) then Some m else mfind n r end.
+Definition pays_of (n : string) (ms : list merchant) : list payment :=
+  match mfind n ms with Some m => m_payments m | None => [] end.
+Definition tags_of (n : string) (ms : list merchant) : list string :=
+  match mfind n ms with Some m => m_tags m | None => [] end.
+Definition of_merchant (n : string) (t : txn) : bool := String.eqb (t_merchant t) n.
+
+Lemma mfind_bm_add t ms n :
+  mfind n (bm_add t ms) =
+  if String.eqb n (t_merchant t)
+  then Some match mfind n ms with
+            | Some m => {| m_name := m_name m; m_category := t_category t; m_subcategory := t_subcategory t;
+                           m_tags := (m_tags m ++ t_tags t)%list; m_payments := (m_payments m ++ [eff t])%list |}
+            | None => {| m_name := t_merchant t; m_category := t_category t; m_subcategory := t_subcategory t;
+                         m_tags := t_tags t; m_payments := [eff t] |}
+            end
+  else mfind n ms.
+Proof.
+  induction ms as [|m r IH]; simpl.
+  - destruct (String.eqb n (t_merchant t)); reflexivity.
+  - destruct (String.eqb (t_merchant t) (m_name m)) eqn:E; simpl.
+    + apply String.eqb_eq in E. destruct (String.eqb n (m_name m)) eqn:N; rewrite E, N; reflexivity.
+    + destruct (String.eqb n (m_name m)) eqn:N.
+      * destruct (String.eqb n (t_merchant t)) eqn:N2; [|reflexivity].
+        apply String.eqb_eq in N. apply String.eqb_eq in N2. rewrite <- N2, <- N, String.eqb_refl in E. discriminate.
+      * exact IH.
+Qed.
+
+Lemma names_bm_add t ms n : In n (map m_name (bm_add t ms)) <-> n = t_merchant t \/ In n (map m_name ms).
+Proof.
+  induction ms as [|m r IH]; simpl; [intuition|].
+  destruct (String.eqb (t_merchant t) (m_name m)) eqn:E; simpl.
+  - apply String.eqb_eq in E. rewrite E. intuition.
+  - rewrite IH. intuition.
+Qed.
+
+Lemma nodup_bm_add t ms : NoDup (map m_name ms) -> NoDup (map m_name (bm_add t ms)).
+Proof.
+  induction ms as [|m r IH]; simpl; intros H; [constructor; [intros []|constructor]|].
+  inversion H as [|x xs Hn Hr]; subst. destruct (String.eqb (t_merchant t) (m_name m)) eqn:E; simpl.
+  - constructor; assumption.
+  - constructor; [|now apply IH]. intros X. apply names_bm_add in X. destruct X as [X|X]; [|contradiction].
+    rewrite X, String.eqb_refl in E. discriminate.
+Qed.
+
+Lemma pays_bm_add t ms n :
+  pays_of n (bm_add t ms) = if of_merchant n t then (pays_of n ms ++ [eff t])%list else pays_of n ms.
+Proof.
+  unfold pays_of, of_merchant. rewrite mfind_bm_add, (eqb_sym' (t_merchant t) n).
+  destruct (String.eqb n (t_merchant t)); [|reflexivity]. destruct (mfind n ms); reflexivity.
+Qed.
+Lemma tags_bm_add t ms n :
+  tags_of n (bm_add t ms) = if of_merchant n t then (tags_of n ms ++ t_tags t)%list else tags_of n ms.
+Proof.
+  unfold tags_of, of_merchant. rewrite mfind_bm_add, (eqb_sym' (t_merchant t) n).
+  destruct (String.eqb n (t_merchant t)); [|reflexivity]. destruct (mfind n ms); reflexivity.
+Qed.
+
+Lemma by_merchant_fold txns : forall ms n,
+  let r := fold_left (fun ms t => bm_add t ms) txns ms in
+  pays_of n r = (pays_of n ms ++ map eff (filter (of_merchant n) txns))%list /\
+  tags_of n r = (tags_of n ms ++ flat_map t_tags (filter (of_merchant n) txns))%list /\
+  (NoDup (map m_name ms) -> NoDup (map m_name r)) /\
+  (In n (map m_name r) <-> In n (map m_name ms) \/ exists t, In t txns /\ t_merchant t = n).
+Proof.
+  induction txns as [|t txns IH]; intros ms n; cbv zeta; simpl.
+  - rewrite !app_nil_r. split; [reflexivity|]. split; [reflexivity|]. split; [auto|].
+    split; [auto|]. intros [H|[t [F _]]]; [exact H|destruct F].
+  - destruct (IH (bm_add t ms) n) as (P & T & N & I). cbv zeta in P, T, N, I. rewrite P, T, pays_bm_add, tags_bm_add.
+    split; [|split; [|split]].
+    + destruct (of_merchant n t); simpl; [now rewrite <- app_assoc|reflexivity].
+    + destruct (of_merchant n t); simpl; [now rewrite <- !app_assoc|reflexivity].
+    + intros H. apply N. now apply nodup_bm_add.
+    + rewrite I, names_bm_add. split.
+      * intros [[E|H]|[u [Hu E]]]; [right; exists t; auto|left; exact H|right; exists u; auto].
+      * intros [H|[u [[E|Hu] E2]]]; [left; right; exact H|subst; left; left; reflexivity|right; exists u; auto].
+Qed.
+
+Lemma mfind_self ms m : NoDup (map m_name ms) -> In m ms -> mfind (m_name m) ms = Some m.
+Proof.
+  induction ms as [|x r IH]; simpl; intros ND H; [contradiction|].
+  inversion ND as [|y ys Hn Hr]; subst. destruct H as [H|H]; [subst x; now rewrite String.eqb_refl|].
+  destruct (String.eqb_spec (m_name m) (m_name x)) as [E|E]; [|now apply IH].
+  exfalso. apply Hn. rewrite <- E. now apply in_map.
+Qed.
+
+(* THE statement: the merchants are the distinct names, and a merchant's payments / tags are exactly those of
+   its own transactions, in order *)
+Theorem by_merchant_spec (txns : list txn) :
+  NoDup (map m_name (by_merchant txns)) /\
+  (forall n, In n (map m_name (by_merchant txns)) <-> exists t, In t txns /\ t_merchant t = n) /\
+  (forall m, In m (by_merchant txns) ->
+     m_payments m = map eff (filter (of_merchant (m_name m)) txns) /\
+     m_tags m = flat_map t_tags (filter (of_merchant (m_name m)) txns)).
+Proof.
+  unfold by_merchant.
+  assert (ND : NoDup (map m_name (fold_left (fun ms t => bm_add t ms) txns []))).
+  { destruct (by_merchant_fold txns [] ""%string) as (_ & _ & N & _). apply N. constructor. }
+  split; [exact ND|]. split.
+  - intros n. destruct (by_merchant_fold txns [] n) as (_ & _ & _ & I). rewrite I. simpl. intuition.
+  - intros m Hm. destruct (by_merchant_fold txns [] (m_name m)) as (P & T & _ & _).
+    unfold pays_of, tags_of in *. rewrite (mfind_self _ m ND Hm) in P, T. simpl in P, T. split; assumption.
+Qed.
+
+(* a merchant is left out of every view iff one of ITS transactions carries a special tag (any letter case) *)
+Theorem by_merchant_excluded (txns : list txn) (m : merchant) :
+  In m (by_merchant txns) ->
+  (excluded m = true <->
+   exists t tag, In t txns /\ t_merchant t = m_name m /\ In tag (t_tags t) /\
+                 (lower tag = "income" \/ lower tag = "transfer" \/ lower tag = "investment")%string).
+Proof.
+  intros Hm. destruct (by_merchant_spec txns) as (_ & _ & S). destruct (S m Hm) as [_ T].
+  rewrite excluded_spec, T. split.
+  - intros [tag [Ht H]]. apply in_flat_map in Ht. destruct Ht as [t [Hf Hi]]. apply filter_In in Hf.
+    destruct Hf as [Hin Hof]. exists t, tag. repeat split; auto. now apply String.eqb_eq in Hof.
+  - intros [t [tag (Hin & Hn & Hi & H)]]. exists tag. split; [|exact H]. apply in_flat_map. exists t. split; [|exact Hi].
+    apply filter_In. split; [exact Hin|]. unfold of_merchant. rewrite Hn. apply String.eqb_refl.
+Qed.
+
